@@ -16,21 +16,27 @@
 
     The pinned code updates memory before commit in several operations, so the
     statement cannot hold for all histories (see [C08_refuted_at_K]); it is
-    proved for all histories outside the decidable trigger pattern [in_K]:
+    proved for all histories outside the decidable trigger pattern [in_K rb]:
     an aborted transaction holding rename / set-synced-to / set-birthday /
-    extend / import / next-addresses, or new-account followed by an address,
-    last-address or properties read; a committed transaction holding extend
-    after next-addresses on the same account and branch, or SetSyncedTo(nil). *)
+    extend / import, or new-account followed by an address, last-address or
+    properties read, or next-addresses (when [rb]: always; otherwise only if
+    followed by an address lookup); a committed transaction holding extend
+    after next-addresses on the same account and branch, or SetSyncedTo(nil).
+
+    [rb] is the model's one source-dependent parameter: does nextAddresses put
+    the address it reads back into the cache before commit (pinned: yes,
+    finding S4)?  Every theorem is proved for both values; the value of the
+    current source is Generated.AddrCache.next_caches_read_back. *)
 From stdpp Require Import gmap list numbers.
 From Coq Require Import ZArith NArith.
-From Verif Require Import Addr.MemDisk Addr.MemDiskProofs.
+From Verif Require Import Addr.MemDisk Addr.MemDiskProofs Generated.AddrCache.
 
 (** After every transaction boundary of every history outside K, whatever mix
     of committed and rolled-back transactions came before, the running manager
     answers every query exactly as a freshly opened manager does. *)
-Theorem C08_outside_K : forall d0 h1 h2,
-  wf_disk d0 -> times_ok (h1 ++ h2) = true -> in_K (h1 ++ h2) = false ->
-  let s := final h1 (opened d0) in
+Theorem C08_outside_K : forall rb d0 h1 h2,
+  wf_disk d0 -> times_ok (h1 ++ h2) = true -> in_K rb (h1 ++ h2) = false ->
+  let s := final rb h1 (opened d0) in
   forall q, observe (mem_of s) (disk_of s) q = observe (reopen (disk_of s)) (disk_of s) q.
 Proof. exact memory_equals_restart_everywhere. Qed.
 Print Assumptions C08_outside_K.
@@ -40,9 +46,9 @@ Print Assumptions C08_outside_K.
     entry in memory either untouched or freshly loaded from the committed row:
     no next index is advanced.  No hypothesis on the state: this holds after
     ANY history. *)
-Theorem C08_rollback_does_not_advance_indices : forall s ops f qs,
+Theorem C08_rollback_does_not_advance_indices : forall rb s ops f qs,
   f <> Commit -> forallb issue_or_read ops = true ->
-  let s' := (run_tx {| tx_ops := ops; tx_fate := f; tx_queries := qs |} s).1 in
+  let s' := (run_tx rb {| tx_ops := ops; tx_fate := f; tx_queries := qs |} s).1 in
   disk_of s' = disk_of s /\
   forall a ai, m_accts (mem_of s') !! a = Some ai ->
     m_accts (mem_of s) !! a = Some ai \/
@@ -56,20 +62,20 @@ Print Assumptions C08_rollback_does_not_advance_indices.
     [in_K_idx], the part of K that can disturb an index (an aborted extend, an
     aborted new-account that is read back, extend after next-addresses in one
     committed transaction).  In particular after any mix of rolled-back
-    issuance, renames, sync updates and imports. *)
-Theorem C08_next_issue_equals_restart : forall d0 h a b n,
+    issuance (dry runs), renames, sync updates and imports. *)
+Theorem C08_next_issue_equals_restart : forall rb d0 h a b n,
   wfL d0 -> in_K_idx h = false ->
-  let s := final h (opened d0) in
-  (run_tx (issue_tx a b n) s).2.1 = (run_tx (issue_tx a b n) (opened (disk_of s))).2.1 /\
-  disk_of (run_tx (issue_tx a b n) s).1 = disk_of (run_tx (issue_tx a b n) (opened (disk_of s))).1.
+  let s := final rb h (opened d0) in
+  (run_tx rb (issue_tx a b n) s).2.1 = (run_tx rb (issue_tx a b n) (opened (disk_of s))).2.1 /\
+  disk_of (run_tx rb (issue_tx a b n) s).1 = disk_of (run_tx rb (issue_tx a b n) (opened (disk_of s))).1.
 Proof. exact next_issue_equals_restart. Qed.
 Print Assumptions C08_next_issue_equals_restart.
 
 (** ... and the index-related answers (last addresses, key counts) agree with
     the restarted manager outside [in_K_idx], whatever else diverged. *)
-Theorem C08_index_queries_outside_K_idx : forall d0 h a,
+Theorem C08_index_queries_outside_K_idx : forall rb d0 h a,
   wfL d0 -> in_K_idx h = false ->
-  let s := final h (opened d0) in
+  let s := final rb h (opened d0) in
   (forall b, observe (mem_of s) (disk_of s) (QLast a b)
              = observe (reopen (disk_of s)) (disk_of s) (QLast a b)) /\
   match observe (mem_of s) (disk_of s) (QProps a),
@@ -82,54 +88,64 @@ Proof. exact index_queries_equal_restart. Qed.
 Print Assumptions C08_index_queries_outside_K_idx.
 
 (** K_idx is a part of K. *)
-Theorem C08_K_idx_within_K : forall h, in_K_idx h = true -> in_K h = true.
+Theorem C08_K_idx_within_K : forall rb h, in_K_idx h = true -> in_K rb h = true.
 Proof. exact in_K_idx_sub. Qed.
 Print Assumptions C08_K_idx_within_K.
 
-(** Inside K the statement is false on the pinned code: one witness per trigger,
-    each a history in K starting from the database [waddrmgr.Create] leaves,
-    with a query the running manager answers differently from a freshly
-    opened one; for the two index triggers also the next committed issuance
-    differs from the restarted wallet's. *)
-Theorem C08_refuted_at_K :
+(** Inside K the statement is false: one witness per trigger, each a history in
+    K starting from the database [waddrmgr.Create] leaves, with a query the
+    running manager answers differently from a freshly opened one; for the two
+    index triggers also the next committed issuance differs from the restarted
+    wallet's.  (Both values of [rb].) *)
+Theorem C08_refuted_at_K : forall rb,
   let differs h q :=
-    in_K h = true /\
-    let s := final h (opened d_wit) in
+    in_K rb h = true /\
+    let s := final rb h (opened d_wit) in
     observe (mem_of s) (disk_of s) q <> observe (reopen (disk_of s)) (disk_of s) q in
   wf_disk d_wit /\
   differs w_rename (QProps 0) /\               (* account name *)
   differs w_synced QSynced /\                  (* synced-to *)
   differs w_extend (QProps 0) /\               (* next index after extend *)
   differs w_extend (QLast 0 false) /\          (* last address after extend *)
-  differs w_phantom (QLookup (Chain 0 true 0)) /\   (* phantom address of a dry-run issuance *)
+  differs w_issue_lookup (QLookup (Chain 0 true 0)) /\   (* phantom address: issued, looked up, rolled back *)
   differs w_birthday QBirthday /\
   differs w_import (QLookup (ImpKey 0)) /\     (* phantom imported address *)
   differs w_newacct_read (QProps 1) /\         (* phantom account *)
   differs w_stale_callback (QProps 0) /\       (* committed: stale OnCommit after extend *)
   differs w_synced_nil QSynced /\              (* committed: SetSyncedTo(nil) time stamp *)
-  (let s := final w_extend (opened d_wit) in
-   (run_tx (issue_tx 0 false 1) s).2.1 <> (run_tx (issue_tx 0 false 1) (opened (disk_of s))).2.1) /\
-  (let s := final w_stale_callback (opened d_wit) in
-   (run_tx (issue_tx 0 false 1) s).2.1 <> (run_tx (issue_tx 0 false 1) (opened (disk_of s))).2.1).
+  (let s := final rb w_extend (opened d_wit) in
+   (run_tx rb (issue_tx 0 false 1) s).2.1 <> (run_tx rb (issue_tx 0 false 1) (opened (disk_of s))).2.1) /\
+  (let s := final rb w_stale_callback (opened d_wit) in
+   (run_tx rb (issue_tx 0 false 1) s).2.1 <> (run_tx rb (issue_tx 0 false 1) (opened (disk_of s))).2.1).
 Proof.
-  cbv zeta.
-  pose proof witnesses_in_K as HK. simpl in HK.
+  intros rb. cbv zeta.
+  pose proof (witnesses_in_K rb) as HK. simpl in HK.
   repeat (apply andb_true_iff in HK as [?HK0 HK]).
   repeat match goal with H : _ && _ = true |- _ => apply andb_true_iff in H as [? ?] end.
-  destruct witnesses_diverge as (D1 & D2 & D3 & D4 & D5 & D6 & D7 & D8 & D9 & D10).
-  destruct witnesses_issue_differs as (_ & I1 & _ & I2).
+  destruct (witnesses_diverge rb) as (D1 & D2 & D3 & D4 & D5 & D6 & D7 & D8 & D9 & D10).
+  destruct (witnesses_issue_differs rb) as (_ & I1 & _ & I2).
   split; [apply wf_created|].
   repeat split; try assumption;
     first [ apply diverges_spec; assumption | apply issue_differs_spec; assumption ].
 Qed.
 Print Assumptions C08_refuted_at_K.
 
+(** Finding S4 exactly: the plain dry-run issuance (one NextInternalAddresses in
+    a transaction that returns ErrDryRunRollBack) leaves a phantom address - it
+    is inside K and diverges - if and only if the read-back is cached before
+    commit; it never touches an index. *)
+Theorem C08_dry_run_issuance : forall rb,
+  in_K rb w_phantom = rb /\ times_ok w_phantom = true /\ in_K_idx w_phantom = false /\
+  diverges rb w_phantom (QLookup (Chain 0 true 0)) = rb.
+Proof. exact dry_run_issuance_phantom. Qed.
+Print Assumptions C08_dry_run_issuance.
+
 (** Non-vacuity. *)
 
 (** A history OUTSIDE K that mixes committed and rolled-back transactions
     (issuance, rename, new account, mark-used, sync; aborted: new account,
     mark-used, birthday block, reads): the hypotheses of [C08_outside_K] hold. *)
-Example C08_nonvacuous_outside_K :
+Example C08_nonvacuous_outside_K : forall rb,
   let h := [ {| tx_ops := [ONext 0 false 2; ORename 0 7; ONewAccount 8]; tx_fate := Commit;
                 tx_queries := [QProps 0; QLookup (Chain 0 false 1)] |};
              {| tx_ops := [ONewAccount 9; OMarkUsed (Chain 0 false 0); OSetBdayBlock stamp1 true];
@@ -139,22 +155,24 @@ Example C08_nonvacuous_outside_K :
              {| tx_ops := [OExtend 1 true 3; ONext 1 true 1; OSetSynced stamp1; OImport (ImpScript 0) (Some stamp1)];
                 tx_fate := Commit; tx_queries := [QLookup (ImpScript 0)] |};
              {| tx_ops := [OMarkUsed (Chain 1 true 4)]; tx_fate := CommitFails; tx_queries := [QSynced] |} ] in
-  in_K h = false /\ times_ok h = true /\
-  let s := final h (opened d_wit) in
+  in_K rb h = false /\ times_ok h = true /\
+  let s := final rb h (opened d_wit) in
   observe (mem_of s) (disk_of s) (QProps 1) = AProps 8 0 5 0 /\
   observe (mem_of s) (disk_of s) (QProps 0) = AProps 7 2 0 0 /\
   observe (mem_of s) (disk_of s) (QLookup (Chain 1 true 4)) = AAddr (Chain 1 true 4) 1 true false false.
-Proof. vm_compute. repeat split. Qed.
+Proof. intros []; vm_compute; repeat split. Qed.
 
-(** The scenario the property names: dry-run issuance is inside K (phantom
-    address) but outside K_idx; the next committed request issues index 1,
-    exactly what the restarted manager issues. *)
+(** The scenario the property names, on the source as it is now: dry-run
+    issuance mixed with other rolled-back updates is outside K_idx; the next
+    committed request issues index 1, exactly what the restarted manager
+    issues. *)
 Example C08_nonvacuous_dry_run :
+  let rb := next_caches_read_back in
   let h := [ {| tx_ops := [ONext 0 true 1]; tx_fate := Commit; tx_queries := [QProps 0] |};
              {| tx_ops := [ONext 0 true 2; ORename 0 7; OSetSynced stamp1]; tx_fate := AbortDryRun; tx_queries := [QProps 0] |};
              {| tx_ops := [ONext 0 true 1]; tx_fate := CommitFails; tx_queries := [] |} ] in
-  in_K h = true /\ in_K_idx h = false /\
-  let s := final h (opened d_wit) in
-  (run_tx (issue_tx 0 true 1) s).2.1 = [AAddrs [Chain 0 true 1]] /\
-  (run_tx (issue_tx 0 true 1) (opened (disk_of s))).2.1 = [AAddrs [Chain 0 true 1]].
+  in_K rb h = true /\ in_K_idx h = false /\
+  let s := final rb h (opened d_wit) in
+  (run_tx rb (issue_tx 0 true 1) s).2.1 = [AAddrs [Chain 0 true 1]] /\
+  (run_tx rb (issue_tx 0 true 1) (opened (disk_of s))).2.1 = [AAddrs [Chain 0 true 1]].
 Proof. vm_compute. repeat split. Qed.
